@@ -46,7 +46,7 @@ def run_slice(ctx, path, req, limit, serial, cn, pos, out, cli, split, pre=()):
                 argv += ["--position=" + repr(pos)]      # (argparse takes '-5e-05' for an option)
             if serial:
                 argv += ["-s"]
-            return run_tool(ctx, mcli.main, cwd=ctx.scratch, argv=argv, label=f"mandoline {argv[1:]} split={split}")
+            return run_tool(ctx, mcli.main, argv=argv, label=f"mandoline {argv[1:]} split={split}")
         from amr_kitchen.mandoline.mandoline import Mandoline
 
         def go():
@@ -54,7 +54,7 @@ def run_slice(ctx, path, req, limit, serial, cn, pos, out, cli, split, pre=()):
             for (n0, p0) in pre:
                 md.slice(normal=n0, pos=p0, fformat="return")
             return md.slice(normal=cn, pos=pos, outfile=out, fformat="plotfile")
-        return run_tool(ctx, go, cwd=ctx.scratch,
+        return run_tool(ctx, go,
                         label=f"Mandoline({req},L={limit},serial={serial}).slice({cn},{pos},plotfile) split={split}")
     finally:
         os.environ.pop("AMR_KITCHEN_VERIF_SPLIT_BYTES", None)
@@ -65,8 +65,11 @@ def run_case(ctx):
     common.draw_env(ctx)
     common.prelude(ctx)
     m = mand.designed_world(src)
-    path, _ = common.materialise(ctx, m)
     cn = src.draw("normal", 0, 2)
+
+    def warm(p):
+        run_slice(ctx, p, ["rnd"], None, True, cn, None, os.path.join(ctx.scratch, "warm_slice"), False, None)
+    path, hcwd, _abs, hmode = common.history_materialise(ctx, m, warm)
     ax = AX[cn]
     pos, pkind = mand.draw_position(src, m, cn)
     lo, hi = m.geo_low[cn], m.geo_high[cn]
